@@ -87,8 +87,10 @@ def instantiate(row, rng, n):
     return out
 
 
-def place(row, plo, phi):
-    """declared (lower, upper): clearly inside / clearly outside the physical range"""
+def place(row, plo, phi, edge=False):
+    """declared (lower, upper): clearly inside / clearly outside the physical range.
+    edge: inside = at the end of the range or 0.4 of the documented tolerance (1e-6 of the calculated limit) beyond it,
+    outside = 10 tolerances beyond it (where the calculated limit is 0 the tolerance is 0: clearly outside instead)"""
     if plo is None:
         # unbounded conversion: any limits; use values far outside the raw range
         lo, hi = RAW[row["dt"]]
@@ -97,6 +99,11 @@ def place(row, plo, phi):
         return (F(lo) * 3 - 1000, F(hi) * 3 + 1000) if row["lower"] == "outside" or row["upper"] == "outside" else (F(lo), F(hi))
     rng_ = phi - plo
     margin = max(rng_ / 100, abs(plo) / 1000, abs(phi) / 1000, F(1, 1000))
+    if edge and row["dt"] not in ("FLOAT32_IEEE", "FLOAT64_IEEE", "FLOAT16_IEEE", "A_UINT64", "A_INT64"):
+        tol_lo, tol_hi = abs(plo) / 10 ** 6, abs(phi) / 10 ** 6
+        lower = (plo - tol_lo * F(4, 10)) if row["lower"] == "inside" else (plo - tol_lo * 10 if tol_lo > 0 else plo - margin)
+        upper = (phi + tol_hi * F(4, 10)) if row["upper"] == "inside" else (phi + tol_hi * 10 if tol_hi > 0 else phi + margin)
+        return lower, upper
     lower = plo + rng_ / 4 if row["lower"] == "inside" else plo - margin
     upper = phi - rng_ / 4 if row["upper"] == "inside" else phi + margin
     return lower, upper
@@ -179,8 +186,9 @@ def run(tier, selftest):
     per_row = 40 if thorough else 2
     cases, mo = [], []
     for row in rows:
-        for co, plo, phi in instantiate(row, rng, per_row):
-            lower, upper = place(row, plo, phi)
+        for n_inst, (co, plo, phi) in enumerate(instantiate(row, rng, per_row)):
+            # every second instance puts the declared limits at the edge of the documented tolerance
+            lower, upper = place(row, plo, phi, edge=(n_inst % 2 == 1))
             if abs(lower) > F(17, 10) * F(10) ** 308 or abs(upper) > F(17, 10) * F(10) ** 308:
                 continue        # the declared limit itself is not representable: not a "clear" case
             i = len(cases)
